@@ -11,6 +11,7 @@ from ..e5_mirror import mirror_equal, mirror_diff
 from ..e7_order import implies, NotOrderPredicate
 from ..e3_axes import Interp, Arr, Num, Ax, NoneV, Obj
 from ..scenarios import nonusage, dedup_events
+from ..match import expect_assign, canon_equal
 
 PROP = "C08"
 EXPLANATION = (
@@ -496,61 +497,77 @@ def application(pm, ctx):
         ctx.violation("C08-f", ku.relpath, "Kauri.fit", norm_src(w.test), "the greedy loop can stop for another reason than a non-positive gain or a "
                       "structural limit" if exits else f"unexpected loop condition {conj}", line=w.lineno)
     # last_gain = best_split.gain and application guarded by last_gain > 0
-    lg = [s for s in w.body if isinstance(s, ast.Assign) and norm_src(s) == "last_gain = best_split.gain"]
-    app = [s for s in w.body if isinstance(s, ast.If) and norm_src(s.test) == "last_gain > 0"]
-    if lg and app and w.body.index(lg[0]) < w.body.index(app[0]):
+    lg = [s_ for s_ in w.body if isinstance(s_, ast.Assign) and norm_src(s_.targets[0]) == "last_gain"]
+    app = [s_ for s_ in w.body if isinstance(s_, ast.If) and "last_gain" in norm_src(s_.test)]
+    if not lg or not app:
+        ctx.unrecognised("C08-f", "Kauri.fit: application guard", "no `last_gain = ...` / `if last_gain ...` at the top level of the loop")
+        return
+    okg = canon_equal(lg[0].value, "best_split.gain") and w.body.index(lg[0]) < w.body.index(app[0])
+    try:
+        from ..e6_algebra import compare_normal
+        d_, o_ = compare_normal(app[0].test)
+        okg = okg and o_ == ">" and d_.equals(compare_normal(ast.parse("last_gain > 0", mode="eval").body)[0])
+    except Exception:
+        okg = False
+    if okg:
         ctx.ok("C08-f", "Kauri.fit: the split is applied iff its gain is positive")
     else:
-        ctx.violation("C08-f", ku.relpath, "Kauri.fit", "last_gain", "the split is not applied under `last_gain > 0` of the split just found", line=w.lineno)
-        return
+        ctx.violation("C08-f", ku.relpath, "Kauri.fit", norm_src(app[0].test), "the split found is not applied exactly when its own gain is positive", line=app[0].lineno)
     body = app[0]
-    src = [norm_src(s) for s in ast.walk(body) if isinstance(s, ast.stmt)]
-    # same comparator / threshold / feature as recorded
-    left = [s for s in src if s.startswith(ns("left_indices, = np.where(x)").split("np.where")[0] + "np.where(")]
-    if left and "X[leaf_indices, best_split.feature] <= best_split.threshold" in left[0]:
-        ctx.ok("C08-f", "Kauri.fit: left part = samples of the leaf with X[:, feature] <= threshold")
+    li = [s_ for s_ in ast.walk(body) if isinstance(s_, ast.Assign) and "left_indices" in [n.id for n in ast.walk(s_.targets[0]) if isinstance(n, ast.Name)] and "np.where" in norm_src(s_.value)]
+    site = "Kauri.fit: applied partition"
+    if not li:
+        ctx.unrecognised("C08-f", site, "left_indices is not computed with np.where")
     else:
-        ctx.violation("C08-f", ku.relpath, "Kauri.fit", left[0] if left else "left_indices", "the applied partition is not `feature <= threshold` on the "
-                      "samples of the chosen leaf", line=body.lineno)
-    leafsel = [s for s in src if s.startswith(ns("leaf_indices, = np.where(x)").split("np.where")[0] + "np.where(")]
-    if leafsel and "Z[best_split.leaf] == 1" in leafsel[0]:
-        ctx.ok("C08-f", "Kauri.fit: the samples split are those of best_split.leaf")
+        cond = li[0].value.args[0] if isinstance(li[0].value, ast.Call) and li[0].value.args else None
+        okc = isinstance(cond, ast.Compare) and isinstance(cond.ops[0], ast.LtE) and norm_src(cond.left) == "X[leaf_indices, best_split.feature]" \
+            and norm_src(cond.comparators[0]) == "best_split.threshold"
+        if okc:
+            ctx.ok("C08-f", site, "left part = samples of the leaf with X[:, feature] <= threshold")
+        else:
+            ctx.violation("C08-f", ku.relpath, "Kauri.fit", norm_src(li[0]), "the applied partition is not `feature <= threshold` on the samples of the chosen leaf, i.e. not the "
+                          "partition whose gain was evaluated", line=li[0].lineno, site=site)
+    ls = [s_ for s_ in ast.walk(body) if isinstance(s_, ast.Assign) and "leaf_indices" in [n.id for n in ast.walk(s_.targets[0]) if isinstance(n, ast.Name)] and "np.where" in norm_src(s_.value)]
+    site = "Kauri.fit: samples of the split leaf"
+    if not ls:
+        ctx.unrecognised("C08-f", site, "leaf_indices is not computed with np.where")
+    elif canon_equal(ls[0].value.args[0], "Z[best_split.leaf] == 1"):
+        ctx.ok("C08-f", site)
     else:
-        ctx.violation("C08-f", ku.relpath, "Kauri.fit", leafsel[0] if leafsel else "leaf_indices", "the split is not applied to the samples of best_split.leaf",
-                      line=body.lineno)
-    need = ["Z[best_split.leaf, right_indices] = 0", "Z[n_leaves, right_indices] = 1", "Y[k, best_split.leaf] = 0",
-            "Y[best_split.left_target, best_split.leaf] = 1", "Y[best_split.right_target, n_leaves] = 1", "k = Y[:, best_split.leaf].argmax()"]
-    missing = [n for n in need if n not in src]
-    if missing:
-        ctx.violation("C08-f", ku.relpath, "Kauri.fit", missing[0], f"leaf/cluster assignment updates missing or altered: {missing}", line=body.lineno)
+        ctx.violation("C08-f", ku.relpath, "Kauri.fit", norm_src(ls[0]), "the split is not applied to the samples of best_split.leaf", line=ls[0].lineno, site=site)
+    for tgt, val, why in (("Z[best_split.leaf, right_indices]", "0", "right samples do not leave the split leaf"),
+                          ("Z[n_leaves, right_indices]", "1", "right samples do not enter the new leaf n_leaves"),
+                          ("Y[k, best_split.leaf]", "0", "the split leaf is not removed from its old cluster"),
+                          ("Y[best_split.left_target, best_split.leaf]", "1", "the left part is not assigned to the recorded left target"),
+                          ("Y[best_split.right_target, n_leaves]", "1", "the right part (new leaf) is not assigned to the recorded right target"),
+                          ("k", "Y[:, best_split.leaf].argmax()", "k is not the current cluster of the split leaf")):
+        expect_assign(ctx, "C08-f", ku, "Kauri.fit", body, tgt, [val], f"Kauri.fit: {tgt}", why)
+    inc = [s_ for s_ in body.body if isinstance(s_, ast.AugAssign) and norm_src(s_.target) == "n_leaves"]
+    if not inc:
+        ctx.unrecognised("C08-f", "Kauri.fit: n_leaves", "no increment of n_leaves in the application block")
     else:
-        ctx.ok("C08-f", "Kauri.fit: Z/Y updated with the recorded leaf and targets (left keeps the leaf id, right gets n_leaves)")
-    # order: k read before Y[k, leaf] = 0, and n_leaves incremented after its uses
-    inc = [s for s in body.body if isinstance(s, ast.AugAssign) and norm_src(s) == "n_leaves += 1"]
-    uses_after = []
-    if inc:
         i = body.body.index(inc[0])
-        uses_after = [s for s in body.body[i + 1:] for n in ast.walk(s) if isinstance(n, ast.Name) and n.id == "n_leaves"]
-        uses_before = [s for s in body.body[:i] if "n_leaves" in norm_src(s)]
-    if inc and not uses_after and len(inc) == 1:
-        ctx.ok("C08-f", "Kauri.fit: n_leaves incremented once, after the new leaf was recorded")
-    else:
-        ctx.violation("C08-f", ku.relpath, "Kauri.fit", "n_leaves += 1", "n_leaves is not incremented exactly once after the new leaf's bookkeeping", line=body.lineno)
+        uses_after = [s_ for s_ in body.body[i + 1:] for n in ast.walk(s_) if isinstance(n, ast.Name) and n.id == "n_leaves"]
+        if len(inc) == 1 and isinstance(inc[0].op, ast.Add) and canon_equal(inc[0].value, "1") and not uses_after:
+            ctx.ok("C08-f", "Kauri.fit: n_leaves incremented once, after the new leaf was recorded")
+        else:
+            ctx.violation("C08-f", ku.relpath, "Kauri.fit", norm_src(inc[0]), "n_leaves is not incremented exactly once after every use of the new leaf's id", line=inc[0].lineno)
     # cluster count bump
-    bump = [s for s in body.body if isinstance(s, ast.If) and "n_clusters" in norm_src(s.test) and "best_split.left_target" in norm_src(s.test)]
-    ok = False
-    if bump:
+    bump = [s_ for s_ in body.body if isinstance(s_, ast.If) and "n_clusters" in norm_src(s_.test) and "best_split.left_target" in norm_src(s_.test)]
+    if not bump:
+        ctx.unrecognised("C08-f", "Kauri.fit: n_clusters", "no update of n_clusters from the recorded targets")
+    else:
         b = bump[0]
         t1 = norm_src(b.test)
         e = b.orelse[0] if b.orelse and isinstance(b.orelse[0], ast.If) else None
-        ok = t1 == "best_split.left_target >= n_clusters and best_split.right_target >= n_clusters" and [norm_src(s) for s in b.body if not isinstance(s, ast.Expr)] == ["n_clusters += 2"] \
+        ok = t1 == "best_split.left_target >= n_clusters and best_split.right_target >= n_clusters" and [norm_src(s_) for s_ in b.body if not isinstance(s_, ast.Expr)] == ["n_clusters += 2"] \
             and e is not None and norm_src(e.test) == "best_split.left_target >= n_clusters or best_split.right_target >= n_clusters" \
-            and [norm_src(s) for s in e.body if not isinstance(s, ast.Expr)] == ["n_clusters += 1"] and not e.orelse
-    if ok:
-        ctx.ok("C08-f", "Kauri.fit: n_clusters grows by the number of new targets")
-    else:
-        ctx.violation("C08-f", ku.relpath, "Kauri.fit", norm_src(bump[0].test) if bump else "n_clusters", "n_clusters is not increased by the number of "
-                      "targets that are new cluster ids", line=body.lineno)
+            and [norm_src(s_) for s_ in e.body if not isinstance(s_, ast.Expr)] == ["n_clusters += 1"] and not e.orelse
+        if ok:
+            ctx.ok("C08-f", "Kauri.fit: n_clusters grows by the number of new targets")
+        else:
+            ctx.violation("C08-f", ku.relpath, "Kauri.fit", norm_src(b.test), "n_clusters is not increased by the number of targets that are new cluster ids (2 if both, 1 if one)",
+                          line=b.lineno)
 
 
 # ------------------------------------------------------------------------------------------- controls
